@@ -11,6 +11,7 @@ which field gets which normalised expression.  No function body is interpreted o
 from __future__ import annotations
 
 import ast
+import re
 import typing as T
 
 from ..core import Module, Undecided, AnchorMissing, attr_chain, call_name, norm, short, walk_no_nested
@@ -36,8 +37,8 @@ EXPLANATION = (
     'holds, YAML is entered only from AFTER_TEST) plus the prefix table (YAML only for version >= 13 on a YAML-start line, end / '
     'body / unterminated rows) and "every test-line row ends in AFTER_TEST, nothing else writes it"; R2 event constructors and '
     'operand roles per row for test / plan / Bail out / version / unknown / end-of-stream and the seven parse_test rows, the six '
-    'line forms denoted by the regex constants (group roles from the regex structure, specification samples, pairwise disjoint), '
-    'parse/parse_async pass every line then exactly one EOF; R3 per-row effect shapes num_tests+1 once, last_test := last_test+1 '
+    'line forms denoted by the regex constants (group roles from the regex structure, specification samples, pairwise disjoint; the number groups of the test / plan / version patterns match ASCII digits only - no \\d without the ASCII flag), '
+    'parse/parse_async pass every line then exactly one EOF (second call, chained None marker, or a private pass-through generator that yields the marker); R3 per-row effect shapes num_tests+1 once, last_test := last_test+1 '
     'if the number group is None else int(group), highest_test := max(highest_test, new last_test), beyond-plan test is '
     'plan.num_tests < new last_test, lineno+1 once, and the retention clause (if a test number is used only for last_test, the running maximum, the plan bound and the Test event, duplicates with count == maximum cannot be reported); R4 int() fed by a capture group whose language is an unbounded digit run must (and text conversion of a number that can be such an int + 1 must) '
     'be guarded by a ValueError handler (CFG), group indices exist, optional groups / self.plan / Optional parameters are only '
@@ -159,7 +160,18 @@ class Facts:
         return v if isinstance(v, ast.Dict) and all(k is not None for k in v.keys) else None
 
     def normal(self, owner: str = PARSER) -> Normal:
-        return Normal(owner, self.text_const, self.display_of)
+        n = Normal(owner, self.text_const, self.display_of)
+        n.nonnull = self.is_enum_member
+        return n
+
+    def is_enum_member(self, text: str) -> bool:
+        """`TestResult.ERROR`: a member the module-level Enum class declares (never None)."""
+        head, _, tail = text.rpartition('.')
+        if not head or '.' in head or not tail.isidentifier() or not head.isidentifier():
+            return False
+        cls = next((st for st in self.mod.tree.body if isinstance(st, ast.ClassDef) and st.name == head
+                    and any((attr_chain(b) or '').split('.')[-1] in ('Enum', 'IntEnum', 'Flag', 'IntFlag', 'StrEnum') for b in st.bases)), None)
+        return cls is not None and any(isinstance(st, ast.Assign) and any(isinstance(t, ast.Name) and t.id == tail for t in st.targets) for st in cls.body)
 
     def default(self, name: str) -> T.Any:
         """Initial value of a parser field: the class-level default, or the value `__init__` stores unconditionally."""
@@ -1620,6 +1632,34 @@ def _check_parse_test(m: Model) -> None:
 # ----------------------------------------------------------------------------------------------
 # R1 state machine
 # ----------------------------------------------------------------------------------------------
+def _expand_pred(f: Facts, t: ast.AST, depth: int = 0) -> ast.AST:
+    """A test read through named predicates: `self.p` (read-only property) / `self.h()` whose body is one `return <expr>` -> that expression;
+    `bool(x)` -> x."""
+    meths = f.mod.methods(PARSER)
+
+    class X(ast.NodeTransformer):
+        def visit_Attribute(self, n: ast.Attribute) -> ast.AST:
+            self.generic_visit(n)
+            fn_ = meths.get(n.attr) if isinstance(n.ctx, ast.Load) and attr_chain(n.value) == 'self' else None
+            if fn_ is not None and [attr_chain(d) for d in fn_.decorator_list] == ['property'] and depth < 3:
+                b = [x for x in fn_.body if not (isinstance(x, ast.Expr) and isinstance(x.value, ast.Constant))]
+                if len(b) == 1 and isinstance(b[0], ast.Return) and b[0].value is not None:
+                    return _expand_pred(f, _copy(b[0].value), depth + 1)
+            return n
+
+        def visit_Call(self, n: ast.Call) -> ast.AST:
+            self.generic_visit(n)
+            if isinstance(n.func, ast.Name) and n.func.id == 'bool' and len(n.args) == 1 and not n.keywords:
+                return n.args[0]
+            fn_ = meths.get(n.func.attr) if isinstance(n.func, ast.Attribute) and attr_chain(n.func.value) == 'self' and not n.args and not n.keywords else None
+            if fn_ is not None and not fn_.decorator_list and isinstance(fn_, ast.FunctionDef) and len(fn_.args.args) == 1 and depth < 3:
+                b = [x for x in fn_.body if not (isinstance(x, ast.Expr) and isinstance(x.value, ast.Constant))]
+                if len(b) == 1 and isinstance(b[0], ast.Return) and b[0].value is not None:
+                    return _expand_pred(f, _copy(b[0].value), depth + 1)
+            return n
+    return X().visit(_copy(t))
+
+
 def _state_flow(f: Facts) -> T.Tuple[CFG, T.Dict[int, T.FrozenSet[int]], bool]:
     """Constant propagation of self.state over {_MAIN, _AFTER_TEST, _YAML} on the CFG of parse_line, refined on the
     true/false edges of `self.state ==/!= <constant>` tests.  Returns the set of possible states on entry of every node."""
@@ -1638,6 +1678,48 @@ def _state_flow(f: Facts) -> T.Tuple[CFG, T.Dict[int, T.FrozenSet[int]], bool]:
                 if attr_chain(x) == 'self.state' and const_of(y) is not None:
                     return T.cast(int, const_of(y)), isinstance(t.ops[0], (ast.Eq, ast.Is))
         return None
+
+    meths = f.mod.methods(PARSER)
+    opaque = [False]     # a called method stores into self.state (or a test on the state is not followed): the per-function propagation is only a may-analysis there
+
+    def expand(t: ast.AST) -> ast.AST:
+        return _expand_pred(f, t)
+
+    def reads_state(e: ast.AST) -> bool:
+        """The expression looks at self.state in a way the refinement below does not follow (directly, or through a parser method)."""
+        for n in ast.walk(e):
+            if isinstance(n, ast.Attribute) and attr_chain(n) == 'self.state':
+                return True
+            if isinstance(n, ast.Attribute) and attr_chain(n.value) == 'self' and n.attr in meths and n.attr not in ('parse_test',) \
+                    and any(isinstance(x, ast.Attribute) and attr_chain(x) == 'self.state' for x in ast.walk(meths[n.attr])):
+                return True
+        return False
+
+    def refine(t: ast.AST, label: bool, s_: T.FrozenSet[int]) -> T.FrozenSet[int]:
+        """States in which the (expanded) test `t` can take the value `label`."""
+        if isinstance(t, ast.UnaryOp) and isinstance(t.op, ast.Not):
+            return refine(t.operand, not label, s_)
+        if isinstance(t, ast.NamedExpr):
+            return refine(t.value, label, s_)
+        if isinstance(t, ast.BoolOp):
+            if isinstance(t.op, ast.And) == label:          # every operand takes `label`
+                for v in t.values:
+                    s_ = refine(v, label, s_)
+                return s_
+            out_: T.FrozenSet[int] = frozenset()           # some operand takes `label`
+            for v in t.values:
+                out_ |= refine(v, label, s_)
+            return out_
+        st_ = state_test(t)
+        if st_ is not None:
+            return (s_ & {st_[0]}) if st_[1] == label else (s_ - {st_[0]})
+        if isinstance(t, ast.Compare) and len(t.ops) == 1 and isinstance(t.ops[0], (ast.In, ast.NotIn)) and attr_chain(t.left) == 'self.state' \
+                and isinstance(t.comparators[0], (ast.Tuple, ast.List, ast.Set)) and all(const_of(x) is not None for x in t.comparators[0].elts):
+            members = frozenset(T.cast(int, const_of(x)) for x in t.comparators[0].elts)
+            return (s_ & members) if isinstance(t.ops[0], ast.In) == label else (s_ - members)
+        if reads_state(t):
+            opaque[0] = True      # a test on the state this propagation cannot follow: the prefix table decides (helpers spliced in)
+        return s_
 
     def writes_state(st: ast.AST) -> T.Optional[ast.AST]:
         if isinstance(st, ast.Assign):
@@ -1664,7 +1746,6 @@ def _state_flow(f: Facts) -> T.Tuple[CFG, T.Dict[int, T.FrozenSet[int]], bool]:
                             raise Undecided(f'{c.func.attr}: self.state is assigned `{short(w)}`, not one of the three state constants')
                         out.add(k)
         return frozenset(out) if hit else None
-    opaque = [False]     # a called method stores into self.state: the per-function propagation is only a may-analysis there
     IN: T.Dict[int, T.FrozenSet[int]] = {cfg.entry.id: allv}
     work = [cfg.entry.id]
     while work:
@@ -1682,19 +1763,14 @@ def _state_flow(f: Facts) -> T.Tuple[CFG, T.Dict[int, T.FrozenSet[int]], bool]:
                             raise Undecided(f'parse_line: self.state is assigned `{short(w)}`, not one of the three state constants')
                         out = frozenset([c])
                     elif isinstance(node.ast, ast.Assert):
-                        t = state_test(node.ast.test)
-                        if t is not None:
-                            out = (s_in & {t[0]}) if t[1] else (s_in - {t[0]})
+                        out = refine(expand(node.ast.test), True, s_in)
                     else:
                         cw = call_writes(node.ast)
                         if cw is not None:
                             out = s_in | cw
                             opaque[0] = True
                 elif node.kind == 'test' and label in (True, False):
-                    t = state_test(node.ast.test)   # type: ignore[union-attr]
-                    if t is not None:
-                        eq = t[1] == label
-                        out = (s_in & {t[0]}) if eq else (s_in - {t[0]})
+                    out = refine(expand(node.ast.test), bool(label), s_in)   # type: ignore[union-attr]
             new = IN.get(succ, frozenset()) | out
             if succ not in IN or new != IN[succ]:
                 IN[succ] = new
@@ -1740,7 +1816,7 @@ def r1(ctx: RuleCtx) -> None:
         st = node.ast
         s_in = IN.get(node.id, frozenset())
         if isinstance(st, ast.Assert):
-            t = st.test
+            t = _expand_pred(f, st.test)
             if isinstance(t, ast.Compare) and len(t.ops) == 1 and isinstance(t.ops[0], (ast.Eq, ast.Is)) and 'self.state' in (attr_chain(t.left), attr_chain(t.comparators[0])):
                 other = t.comparators[0] if attr_chain(t.left) == 'self.state' else t.left
                 k = f.state_of(attr_chain(other) or '')
@@ -1782,6 +1858,23 @@ def r2(ctx: RuleCtx) -> None:
                           mod.assign_value(name, f.cls))
     f.require_forms()
     ctx.floor('regex constants denoting a TAP line form', len(f.forms), 6)
+    # TAP numbers (test number, plan count, version) are ASCII decimal digits: the language of a digits group stays within [0-9]
+    n_digit_groups = 0
+    for kind, (name, form) in f.forms.items():
+        dg = sorted(i for i, r_ in form.roles.items() if r_ == 'digits')
+        if not dg:
+            continue
+        wit = c18_rx.non_ascii_digit_groups(f.regexes[name].pattern, f.regexes[name].flags)
+        for i in dg:
+            n_digit_groups += 1
+            ctx.require(i not in wit, f'{name} group {i} (the {kind}-line number) matches ASCII digits only', mod, PARSER,
+                        f'{name}: the {kind}-line number group matches non-ASCII digits',
+                        f'group {i} of {name} = {f.regexes[name].pattern!r} also matches U+{ord(wit.get(i, "0")):04X} (a str pattern without the ASCII flag: '
+                        f'\\d is every Unicode decimal digit, and int() converts them): a {kind} line such as '
+                        + {'test': f'`ok {wit.get(i, "")} tests in this group` takes the first character of the description as the test number',
+                           'plan': f'`1..{wit.get(i, "")}` becomes a plan', 'version': f'`TAP version {wit.get(i, "")}` becomes a version line'}.get(kind, 'is misread')
+                        + '; TAP numbers are ASCII decimal digits', mod.assign_value(name, f.cls))
+    ctx.floor('digits groups of the line-form patterns', n_digit_groups, 3)
     for i, a in enumerate(MAIN_KINDS):
         for b in MAIN_KINDS[i + 1:]:
             pa, pb = f.regexes[f.forms[a][0]], f.regexes[f.forms[b][0]]
@@ -1821,6 +1914,80 @@ def _params(fn: T.Any) -> T.List[str]:
     return list(param_names(fn))
 
 
+def _input_wrapper(mod: Module, fn: T.Any, it: ast.AST, inp: str) -> T.Optional[T.Tuple[T.Any, int]]:
+    """`self._h(<input>)` / `TAPParser._h(<input>)` / `_h(<input>)` where _h is a (possibly async, static, nested or module-level) generator
+    that re-yields every item of its parameter in order and then yields k constant None markers - the generator spelling of
+    `itertools.chain(<input>, (None,) * k)`.  Returns (helper, k); None when `it` is no such call.  Decided on the helper's paths:
+    every path yields [item per iteration of the loop over the parameter] + [None] * k and contains nothing else."""
+    if not isinstance(it, ast.Call) or any(isinstance(a, ast.Starred) for a in it.args):
+        return None
+    helper: T.Any = None
+    bound_first = False
+    if isinstance(it.func, ast.Attribute) and attr_chain(it.func.value) in ('self', PARSER, 'cls', 'type(self)', 'self.__class__'):
+        helper = mod.methods(PARSER).get(it.func.attr)
+        bound_first = True
+    elif isinstance(it.func, ast.Name):
+        nested = [n for n in fn.body if isinstance(n, (ast.FunctionDef, ast.AsyncFunctionDef)) and n.name == it.func.id]
+        helper = nested[0] if len(nested) == 1 else mod.funcs().get(it.func.id)
+    if helper is None or helper is fn:
+        return None
+    decos = [attr_chain(d) for d in helper.decorator_list]
+    if any(d not in ('staticmethod', 'classmethod') for d in decos) or len(decos) > 1:
+        return None
+    hps = [a.arg for a in helper.args.posonlyargs + helper.args.args]
+    if bound_first and 'staticmethod' not in decos:
+        if attr_chain(it.func.value) == PARSER and not decos:        # TAPParser._h(self, lines): the instance is passed explicitly
+            return None
+        hps = hps[1:]
+    if len(hps) != 1 or helper.args.vararg or helper.args.kwarg or helper.args.kwonlyargs:
+        return None
+    operand = it.args[0] if len(it.args) == 1 and not it.keywords else \
+        (it.keywords[0].value if not it.args and len(it.keywords) == 1 and it.keywords[0].arg == hps[0] else None)
+    if operand is None or norm(operand) != inp:
+        return None
+    hp = hps[0]
+    body = [b for b in helper.body if not (isinstance(b, ast.Expr) and isinstance(b.value, ast.Constant))]
+    loops = [b for b in body if isinstance(b, (ast.For, ast.AsyncFor))]
+    markers: T.Set[int] = set()
+    n_paths = 0
+    for p_ in enumerate_paths(body, unroll=2):
+        n_paths += 1
+        if p_.outcome not in ('fall', 'return') or (p_.outcome == 'return' and p_.value is not None):
+            return None
+        seq: T.List[str] = []
+        iters = 0
+        for e in p_.events:
+            if e.node is None:
+                continue
+            if e.kind == 'iter':
+                lp = e.node
+                if not (len(loops) == 1 and lp is loops[0] and norm(lp.iter) == hp and isinstance(lp.target, ast.Name) and not lp.orelse):
+                    return None
+                iters += 1 if e.val == 'iter' else 0
+            elif e.kind == 'stmt' and isinstance(e.node, ast.Expr) and isinstance(e.node.value, ast.Yield):
+                v = e.node.value.value
+                if v is None or (isinstance(v, ast.Constant) and v.value is None):
+                    seq.append('EOF')
+                elif loops and isinstance(v, ast.Name) and v.id == loops[0].target.id:
+                    seq.append('item')
+                else:
+                    return None
+            elif e.kind == 'stmt' and isinstance(e.node, ast.Expr) and isinstance(e.node.value, ast.YieldFrom) and norm(e.node.value.value) == hp \
+                    and not loops and not isinstance(helper, ast.AsyncFunctionDef):
+                seq.append('all')           # `yield from <input>`: every item, in order
+            elif e.kind == 'stmt' and isinstance(e.node, (ast.Pass, ast.Return)):
+                continue
+            else:
+                return None                 # a condition, another statement: not a plain pass-through
+        k = len(seq) - (iters if loops else 1)
+        if k < 0 or seq != (['item'] * iters if loops else ['all']) + ['EOF'] * k:
+            return None
+        markers.add(k)
+    if len(markers) != 1 or not n_paths:
+        return None
+    return helper, next(iter(markers))
+
+
 def _driver(ctx: RuleCtx, mod: Module, q: str) -> None:
     """parse / parse_async: every line goes to parse_line in order, then exactly one parse_line(None); all events forwarded."""
     qn = f'{PARSER}.{q}'
@@ -1833,6 +2000,7 @@ def _driver(ctx: RuleCtx, mod: Module, q: str) -> None:
     loop = outer[0]
     # what the loop iterates: the input itself, or itertools.chain(<input>, <constant tuple>) whose None items are end-of-stream markers
     sentinels = 0
+    wrapper: T.Any = None
     it = loop.iter
     if isinstance(it, ast.Call) and (call_name(it) or '').split('.')[-1] == 'chain' and len(it.args) == 2 and not it.keywords and norm(it.args[0]) == ps[0]:
         extra = it.args[1]
@@ -1843,11 +2011,15 @@ def _driver(ctx: RuleCtx, mod: Module, q: str) -> None:
         if not (isinstance(extra, (ast.Tuple, ast.List)) and all(isinstance(x, ast.Constant) and x.value is None for x in extra.elts)):
             raise Undecided(f'{qn}: the loop iterates `{short(it)}`; the appended items are not a display of None markers')
         sentinels = len(extra.elts)
+    elif _input_wrapper(mod, fn, it, ps[0]) is not None:
+        wrapper, sentinels = T.cast(T.Tuple[T.Any, int], _input_wrapper(mod, fn, it, ps[0]))
+        if sentinels == 0:      # a plain pass-through of the input
+            wrapper = None
     elif norm(it) != ps[0]:
         raise Undecided(f'{qn}: the loop does not iterate the input itself: {short(loop.iter)}')
     pm = mod.parent_map()
     others = sorted({call_name(c) or '' for c in ast.walk(fn) if isinstance(c, ast.Call) and (call_name(c) or '').startswith('self.')
-                     and call_name(c) != 'self.parse_line'})
+                     and call_name(c) != 'self.parse_line' and c is not it})
     if others:
         raise Undecided(f'{qn}: calls {others}; the line/EOF sequence is only decided for a driver that calls parse_line directly')
 
@@ -1909,7 +2081,8 @@ def _driver(ctx: RuleCtx, mod: Module, q: str) -> None:
             ctx.violation(mod, qn, f'path with {iters} line(s)', f'for {iters} input line(s) the calls are {seq} plus {sentinels} chained None marker(s) '
                           f'(leaving by {p.outcome}); expected every line in order, then exactly one end-of-stream call', fn)
     ctx.ok(f'{qn}: {n} paths: each line is passed to parse_line in order, then exactly one parse_line(None)'
-           + (' (a None marker chained to the input)' if sentinels else '') + ', all events yielded')
+           + (' (a None marker chained to the input' + (f' by the generator {wrapper.name}' if wrapper is not None else '') + ')' if sentinels else '')
+           + ', all events yielded')
 
 
 def _body_nodes(fn: T.Any) -> T.Iterator[ast.AST]:
@@ -2075,7 +2248,7 @@ def r4(ctx: RuleCtx) -> None:
                     'state assertion', 'a world of the prefix table has no completing row: the state assertion fails there (see C18.R1)')
     for node in ([] if opaque1 else cfg1.nodes):
         if node.kind == 'stmt' and isinstance(node.ast, ast.Assert):
-            t = node.ast.test
+            t = _expand_pred(f, node.ast.test)
             ok = False
             if isinstance(t, ast.Compare) and len(t.ops) == 1 and isinstance(t.ops[0], (ast.Eq, ast.Is)):
                 for x, y in ((t.left, t.comparators[0]), (t.comparators[0], t.left)):
@@ -2090,6 +2263,7 @@ def r4(ctx: RuleCtx) -> None:
         if a.annotation is not None and 'Optional' in norm(a.annotation):
             opt_params.add(name)
     n_grp = n_deref = n_ctor = 0
+    meth_names = set(mod.methods(PARSER)) - set(f.tuples)
     probs: T.Dict[T.Tuple[str, str], T.Tuple[str, ast.AST]] = {}
     for qn, tab in all_tabs:
         in_pt = qn.endswith('parse_test')
@@ -2121,6 +2295,11 @@ def r4(ctx: RuleCtx) -> None:
                         if c[2]:
                             probs.setdefault((qn, f'{c[0]}(...) operands'), (f'`{short(x, 70)}`: {c[2]} (TypeError)', raw))
                 for base, x in _unguarded(sub, known, optional):
+                    hidden = sorted({nm for it in r.items[:upto] if it.atom is not None for a_ in it.atom.args if isinstance(a_, str)
+                                     for nm in re.findall(r'\bself\.(\w+)', a_) + re.findall(r'\b(_opaque_\w+)', a_) if nm in meth_names or nm.startswith('_opaque_')})
+                    if hidden:      # a condition of the row is a predicate method/property that was not read: it may be the guard
+                        raise Undecided(f'{qn}: `{short(x, 60)}` is evaluated under the condition(s) {", ".join(hidden)} (a predicate / value that was not read): '
+                                        f'cannot tell whether `{short(base, 40)}` is known to be set there')
                     what = 'an optional capture group' if f.group_ref(_e(base)) else 'an Optional value'
                     probs.setdefault((qn, f'{short(base, 60)} used while None'), (f'`{short(x, 70)}` dereferences {what} `{short(base, 60)}` on a row where no '
                                      f'condition shows it is set ({tab.name}): AttributeError/TypeError on None', raw))
@@ -2201,8 +2380,9 @@ def r4(ctx: RuleCtx) -> None:
     for q in ('parse', 'parse_async'):
         fn = mod.func(f'{PARSER}.{q}')
         safe = ('self.parse_line', 'itertools.chain', 'chain', 'iter')
+        inp = (_params(fn) or [''])[0]
         partial = [n for n in _body_nodes(fn) if isinstance(n, (ast.Subscript, ast.Assert))
-                   or (isinstance(n, ast.Call) and call_name(n) not in safe)]
+                   or (isinstance(n, ast.Call) and call_name(n) not in safe and _input_wrapper(mod, fn, n, inp) is None)]
         if partial:     # not a finding: the pack simply does not know whether these can raise
             raise Undecided(f'{PARSER}.{q} contains operations of its own the inventory does not classify: {[short(x, 40) for x in partial]}')
         ctx.ok(f'{PARSER}.{q}: only iterates its input (possibly chained with constant markers) and calls parse_line')
@@ -2386,6 +2566,14 @@ def r5(ctx: RuleCtx) -> None:
         sources += [(s_, s_.value) for s_ in ast.walk(h) if isinstance(s_, ast.Return) and s_.value is not None]
         sources += [(s_, s_.value) for s_ in ast.walk(h) if isinstance(s_, ast.Assign) and isinstance(s_.value, (ast.Attribute, ast.Constant))
                     and all(isinstance(t, ast.Name) for t in s_.targets)]
+    def leaves(v: ast.AST) -> T.List[ast.AST]:
+        """`a or b` / `a and b` / `a if c else b` produce one of their operands."""
+        if isinstance(v, ast.BoolOp):
+            return [x for o in v.values for x in leaves(o)]
+        if isinstance(v, ast.IfExp):
+            return leaves(v.body) + leaves(v.orelse)
+        return [v]
+    sources = [(s_, x) for s_, val in sources for x in leaves(val)]
     for s_, val in sources:
         if isinstance(val, ast.Name) or (isinstance(val, ast.Call) and (attr_chain(val.func) or '').startswith('self.')) \
                 or (isinstance(val, ast.Call) and isinstance(val.func, ast.Subscript)):
@@ -2520,7 +2708,7 @@ def r5(ctx: RuleCtx) -> None:
         return (_enum(val) or '?' + short(val, 40), appended)
     lextra = [canon(_e(f'isinstance({ev}, {PARSER}.{k})'), True)[0] for k in kinds] + [canon(_e(f'{ev}.result.is_bad()'), True)[0]]
     def lconsistent(v: T.Dict[str, T.Optional[bool]]) -> bool:
-        if sum(1 for k in kinds if v.get('is ' + k)) > 1:
+        if sum(1 for k in kinds if v.get('is ' + k)) > 1 or v.get('a TestResult member is truthy') is False:
             return False
         res_true = [k[len('result is '):] for k, x in v.items() if k.startswith('result is ') and x]
         if len(res_true) > 1:
